@@ -16,6 +16,26 @@ method of the container and the module-level function of measures/degree.py resp
   TemporalHypergraph and MultiplexHypergraph on <= 3 nodes, two times resp. two layers, <= 3 hyperedges of size
   1..3 (thorough: 4 nodes).
 
+Same object queried around an edit (query -> edit -> the same query again; every degree and component query, both
+call styles, the same filter before and after; the edit keeps the number of nodes and the number of hyperedges, so a
+result remembered under such cheap invariants - counts, filter, node - would be exposed; clauses evaluated on a state
+reached by edits carry keys ending in "|after edits on the same object"):
+
+* exhaustive, Hypergraph: every hypergraph on n <= 3 nodes with 1..3 hyperedges and n = 4 with 1..2 (thorough: 1..3,
+  and n = 5 with 1..2; n = 3 / 1..2 once more with string labels) x every pair (hyperedge removed, different hyperedge
+  of size 1..4 added); the same hypergraphs (also without hyperedge) x every node replaced by a new node that takes
+  over its hyperedges, and x every two nodes exchanged.  One round per filter (quick: none, order=0, size=2, order=2,
+  size=4; thorough: all 11, for n = 5 those five and order=1, size=3), the edit alternating forth and back, so that
+  over the enumeration every filter meets every edit.
+* exhaustive, degrees of the other containers: DirectedHypergraph on 2..3 nodes with <= 2 hyperedges, Temporal- and
+  MultiplexHypergraph on 2 nodes with <= 2 and 3 nodes with <= 1 (thorough: <= 2) hyperedges, same three edits, 4
+  filters (thorough: 9).
+* sampled: random histories as below followed by 3..6 random edits (hyperedge swapped for a random / a same-size one,
+  two hyperedges moved, node replaced keeping or re-drawing its hyperedges, two nodes exchanged; one edit in three
+  is instead a single add_edge / remove_edge / add_node / remove_node, which changes a count), one filter per round,
+  drawn mostly from the sizes present.
+  In a swap the removal comes first or the addition comes first (exhaustive part: one order forth, the other back).
+
 Sampled (seeded, counts fixed per tier): random histories of add_node / add_edge for all four classes with up to 7
 nodes, up to 6 hyperedges of size 1..5, labels 0..n-1 / non-contiguous ints / strings, explicit isolated nodes
 interleaved with the hyperedges, weighted and unweighted, and histories that re-add an existing hyperedge with its
@@ -26,15 +46,21 @@ Oracle
 ------
 A ghost model built from the history alone (set of nodes, set of distinct hyperedges as frozensets).  Degree = number
 of filtered hyperedges containing the node (brute force); components = union-find over the filtered hyperedges of
-size >= 2; isolated = in no filtered hyperedge of size >= 2.  The implementation is observed through its public
-methods / functions only.  A case whose container disagrees with the ghost model about its nodes / hyperedges
+size >= 2; isolated = in no filtered hyperedge of size >= 2.  In an edit sequence the history includes the edits
+(remove_edge takes the hyperedge away and leaves its nodes, remove_node takes the node and its hyperedges away), and
+every query is compared with the model of the history up to that moment.  The implementation is observed through its
+public methods / functions only.  A case whose container disagrees with the ghost model about its nodes / hyperedges
 (get_nodes / get_edges) is outside C08 (that is C01-C04) and is skipped and counted.
 
 Limits
 ------
 * components, isolated nodes: Hypergraph only (the statement extends only the degrees to the other containers).
 * MultiplexHypergraph has no degree_distribution method: only the module-level function is driven for it.
-* replay() re-executes one (history, filter) pair and reports the clause named by the recorded key.
+* replay() re-executes one (history, filter) pair and reports the clause named by the recorded key; for an edit
+  sequence it re-executes the whole sequence (the failing answer depends on the queries made before the edit).
+* the exhaustive edit sequences only use edits that keep both counts; edits that change a count occur in the random
+  sequences only.  An edit the container rejects, or after which get_nodes / get_edges disagree with the model, ends
+  the sequence (that is C01-C04) and is counted.
 * the empty hypergraph (no node) is a trivial case; largest_component(_size) may reject it (max of nothing).
 * calling with both order and size is rejected by the code with ValueError; the statement does not speak about it.
 * a DirectedHypergraph hyperedge whose source and target share a node has no agreed size / multiplicity (the code
@@ -63,6 +89,7 @@ C_CONN = "is_connected = exactly one reachability class under the same filter"
 C_ISO = "isolated nodes = nodes in no filtered hyperedge of size >= 2"
 C_ISO1 = "is_isolated = node in no filtered hyperedge of size >= 2"
 C_PURE = "queries do not modify the hypergraph"
+SEQ = "|after edits on the same object"  # key suffix: the queried state was reached by editing an already queried object
 
 NPROC = max(1, min(14, (os.cpu_count() or 2) - 2))
 
@@ -139,58 +166,108 @@ def _classes():
                 MultiplexHypergraph=MultiplexHypergraph)
 
 
+def apply_op(hg, cls, op):
+    """One history step on the real container, through the public API."""
+    if op[0] == "n":
+        hg.add_node(op[1])
+        return
+    if op[0] == "rn":
+        hg.remove_node(op[1])
+        return
+    e = op[1]
+    if op[0] == "re":
+        if cls == "Hypergraph":
+            hg.remove_edge(tuple(e))
+        elif cls == "DirectedHypergraph":
+            hg.remove_edge((tuple(e[0]), tuple(e[1])))
+        elif cls == "TemporalHypergraph":
+            hg.remove_edge(tuple(e[1]), e[0])
+        else:
+            hg.remove_edge((tuple(e[0]), e[1]))
+        return
+    w = op[2] if len(op) > 2 else None
+    if cls == "Hypergraph":
+        hg.add_edge(tuple(e), weight=w)
+    elif cls == "DirectedHypergraph":
+        hg.add_edge((tuple(e[0]), tuple(e[1])), weight=w)
+    elif cls == "TemporalHypergraph":
+        hg.add_edge(tuple(e[1]), e[0], weight=w)
+    else:
+        hg.add_edge(tuple(e[0]), e[1], weight=w)
+
+
 def build(spec):
-    """Replays the history of the spec on a fresh container through the public API."""
+    """Replays the history of the spec (its "ops") on a fresh container through the public API."""
     cls = spec["cls"]
     hg = _classes()[cls](weighted=bool(spec.get("weighted")))
     for op in spec["ops"]:
-        if op[0] == "n":
-            hg.add_node(op[1])
-            continue
-        e, w = op[1], (op[2] if len(op) > 2 else None)
-        if cls == "Hypergraph":
-            hg.add_edge(tuple(e), weight=w)
-        elif cls == "DirectedHypergraph":
-            hg.add_edge((tuple(e[0]), tuple(e[1])), weight=w)
-        elif cls == "TemporalHypergraph":
-            hg.add_edge(tuple(e[1]), e[0], weight=w)
-        else:
-            hg.add_edge(tuple(e[0]), e[1], weight=w)
+        apply_op(hg, cls, op)
     return hg
 
 
+def edge_nodes(cls, e):
+    """The nodes of a hyperedge written in the spec format of its class."""
+    return (list(e[0]) + list(e[1]) if cls == "DirectedHypergraph" else
+            list(e[1]) if cls == "TemporalHypergraph" else list(e[0]) if cls == "MultiplexHypergraph" else list(e))
+
+
+def map_edge(cls, e, f):
+    """The hyperedge with every node v replaced by f.get(v, v)."""
+    g = lambda xs: [f.get(x, x) for x in xs]  # noqa: E731
+    return (g(e) if cls == "Hypergraph" else [g(e[0]), g(e[1])] if cls == "DirectedHypergraph" else
+            [e[0], g(e[1])] if cls == "TemporalHypergraph" else [g(e[0]), e[1]])
+
+
 class Model:
-    """Ghost model of a history: nodes (ordered, distinct), distinct hyperedges with members and size."""
+    """Ghost model of a history: nodes (ordered, distinct), distinct hyperedges with members and size.
+
+    History steps: ["n", v] add node; ["e", edge, weight?] add hyperedge (and its nodes); ["re", edge] remove that
+    hyperedge (its nodes stay); ["rn", v] remove the node together with every hyperedge containing it."""
 
     def __init__(self, spec):
-        cls = spec["cls"]
-        self.nodes, self.edges = [], {}
-        seen = set()
-
-        def node(v):
-            if v not in seen:
-                seen.add(v)
-                self.nodes.append(v)
-
+        self.cls = spec["cls"]
+        self.nodes, self.nodeset, self.edges, self.raw = [], set(), {}, {}
+        self.readded = False  # some step added a hyperedge that was present at that moment
         for op in spec["ops"]:
-            if op[0] == "n":
-                node(op[1])
-                continue
-            e = op[1]
-            if cls == "Hypergraph":
-                ident, members, size = frozenset(e), frozenset(e), len(set(e))
-            elif cls == "DirectedHypergraph":
-                ident = (frozenset(e[0]), frozenset(e[1]))
-                members, size = frozenset(e[0]) | frozenset(e[1]), len(set(e[0])) + len(set(e[1]))
-            elif cls == "TemporalHypergraph":
-                ident, members, size = (e[0], frozenset(e[1])), frozenset(e[1]), len(set(e[1]))
+            self.apply(op)
+
+    def ident(self, e):
+        cls = self.cls
+        if cls == "Hypergraph":
+            return frozenset(e), frozenset(e), len(set(e))
+        if cls == "DirectedHypergraph":
+            return ((frozenset(e[0]), frozenset(e[1])), frozenset(e[0]) | frozenset(e[1]),
+                    len(set(e[0])) + len(set(e[1])))
+        if cls == "TemporalHypergraph":
+            return (e[0], frozenset(e[1])), frozenset(e[1]), len(set(e[1]))
+        return (frozenset(e[0]), e[1]), frozenset(e[0]), len(set(e[0]))
+
+    def _node(self, v):
+        if v not in self.nodeset:
+            self.nodeset.add(v)
+            self.nodes.append(v)
+
+    def apply(self, op):
+        if op[0] == "n":
+            self._node(op[1])
+        elif op[0] == "rn":
+            v = op[1]
+            self.nodes.remove(v)
+            self.nodeset.discard(v)
+            for i in [i for i, ms in self.edges.items() if v in ms[0]]:
+                del self.edges[i], self.raw[i]
+        elif op[0] == "re":
+            i = self.ident(op[1])[0]
+            del self.edges[i], self.raw[i]
+        else:
+            i, members, size = self.ident(op[1])
+            if i in self.edges:
+                self.readded = True
             else:
-                ident, members, size = (frozenset(e[0]), e[1]), frozenset(e[0]), len(set(e[0]))
-            self.edges[ident] = (members, size)
-            for v in (list(e[0]) + list(e[1]) if cls == "DirectedHypergraph" else
-                      e[1] if cls == "TemporalHypergraph" else e[0] if cls == "MultiplexHypergraph" else e):
-                node(v)
-        self.nodeset = set(self.nodes)
+                self.raw[i] = op[1]
+            self.edges[i] = (members, size)
+            for v in edge_nodes(self.cls, op[1]):
+                self._node(v)
 
     def filtered(self, flt):
         es = list(self.edges.values())
@@ -202,10 +279,7 @@ class Model:
 
 def history_tag(spec, model):
     """Key suffix for histories whose degree clauses can fail for a reason of their own (derived from the ops)."""
-    es = [op[1] for op in spec["ops"] if op[0] == "e"]
-    if len(es) > len(model.edges):
-        return "|re-added hyperedge"
-    return ""
+    return "|re-added hyperedge" if model.readded else ""
 
 
 def observed_structure(cls, hg):
@@ -296,6 +370,78 @@ def check_case(rec, spec, filters):
               replay=dict(spec=spec, filter="all"))
 
 
+def check_seq(rec, spec, filters):
+    """query -> edit -> the same query again, on ONE object.
+
+    spec["ops"] builds the object; spec["edits"] is a list of edits (lists of history steps); except in the random
+    sequences (where one edit in three adds or removes a single node / hyperedge) each of them leaves the number of
+    nodes and the number of hyperedges unchanged.  Round k (one per filter, the spec's own "filters" if it has
+    them): every degree / component query with filter k on the current state, then edit k (cyclically), then every
+    query with the SAME filter on the new state.  The oracle is the ghost model of the whole history so far; the
+    property speaks about the hypergraph as it is, so an answer computed for an earlier state is a violation."""
+    import hypergraphx.measures.degree as D
+    cls = spec["cls"]
+    if spec.get("filters") is not None:
+        filters = [tuple(f) if f else None for f in spec["filters"]]
+    edits = spec["edits"]
+    model = Model(spec)
+    try:
+        hg = build(spec)
+    except Exception as ex:  # building the container is C01-C04's business
+        rec.count(f"skipped: history rejected by {cls} ({type(ex).__name__})")
+        return
+
+    def agrees():
+        try:
+            nodes_o, ids_o, n_edges = observed_structure(cls, hg)
+        except Exception:
+            return False
+        return nodes_o == model.nodeset and ids_o == set(model.edges) and n_edges == len(model.edges)
+
+    if not agrees():
+        rec.count(f"skipped: {cls} disagrees with the ghost model about nodes/hyperedges (C01-C04 domain)")
+        return
+    rp = dict(spec=spec, filters=[list(f) if f else None for f in filters])
+
+    def queries(flt, state, when):
+        inp = dict(spec=spec, filter=list(flt) if flt else None, state=state, when=when)
+        seq = SEQ if state else ""
+        before = snapshot(cls, hg)
+        exp = [_degrees(rec, D, cls, hg, model, flt, inp, rp, history_tag(spec, model) + seq)]
+        if cls == "Hypergraph":
+            exp.append(_components(rec, hg, model, flt, inp, rp, "", ctag=seq))
+        try:
+            after = snapshot(cls, hg)
+        except Exception as ex:
+            after = f"{type(ex).__name__}: {ex}"
+        rec.check(after == before, fname("degree+cc", "queries", cls), C_PURE, inp, lambda: _js(before),
+                  lambda: _js(after), replay=rp)
+        return exp
+
+    for k, flt in enumerate(filters):
+        exp0 = queries(flt, k, "before edit %d" % k)
+        n0, m0 = len(model.nodes), len(model.edges)
+        try:
+            for op in edits[k % len(edits)]:
+                apply_op(hg, cls, op)
+                model.apply(op)
+        except Exception as ex:  # an edit rejected by the container is C01-C04's business
+            rec.count(f"skipped: edit rejected by {cls} ({type(ex).__name__})")
+            return
+        keeps = (len(model.nodes), len(model.edges)) == (n0, m0)
+        if not keeps and spec.get("kind") != "random edits":
+            raise AssertionError(f"generated edit does not preserve the counts: {spec}")
+        if not agrees():
+            rec.count(f"skipped: {cls} disagrees with the ghost model about nodes/hyperedges (C01-C04 domain)")
+            return
+        exp1 = queries(flt, k + 1, "after edit %d" % k)
+        rec.count("sequence rounds: query, edit, same query on the same object")
+        if keeps:
+            rec.count("sequence rounds whose edit keeps the number of nodes and of hyperedges")
+            if exp0 != exp1:
+                rec.count("sequence rounds whose edit keeps both counts and changes the expected answers")
+
+
 def _call(rec, fn, f, inp, rp, tag, how):
     try:
         out = f()
@@ -341,9 +487,10 @@ def _degrees(rec, D, cls, hg, model, flt, inp, rp, tag):
             good = isinstance(out, dict) and {k: c for k, c in out.items() if c != 0} == hist
             rec.check(good, f_dist, C_DIST, lambda: dict(inp, call=style), lambda: _js(hist), lambda: _js(out),
                       key=f"{f_dist}:{C_DIST}{tag}", replay=rp)
+    return deg
 
 
-def _components(rec, hg, model, flt, inp, rp, tag):
+def _components(rec, hg, model, flt, inp, rp, tag, ctag=""):
     import hypergraphx.utils.cc as CC
     kw = kwargs(flt)
     filtered = [ms for ms in model.filtered(flt) if ms[1] >= 2]
@@ -363,7 +510,7 @@ def _components(rec, hg, model, flt, inp, rp, tag):
 
     def chk(cond, name, clause, style, expected, observed, **extra):
         rec.check(cond, F(name), clause, lambda: dict(inp, call=style, **extra), expected, observed,
-                  key=f"{F(name)}:{clause}", replay=rp)
+                  key=f"{F(name)}:{clause}{ctag}", replay=rp)
 
     for style in ("method", "function"):
         ok, out = call("connected_components", style)
@@ -412,6 +559,7 @@ def _components(rec, hg, model, flt, inp, rp, tag):
             ok, out = call("is_isolated", style, v)
             if ok:
                 chk(out == (v in isolated), "is_isolated", C_ISO1, style, lambda: v in isolated, lambda: _js(out), node=v)
+    return classes, isolated
 
 
 # ----------------------------------------------------------------------------------------------- enumeration
@@ -526,20 +674,214 @@ def _has_edge(spec):
     return any(op[0] == "e" for op in spec["ops"])
 
 
+# ----------------------------------------------------------------------------------------------- edit sequences
+# An edit is a list of history steps that leaves the number of nodes and the number of hyperedges unchanged.  The
+# functions below write an edit and its inverse for a given state (a Model); `w` gives the weight of an added hyperedge.
+def edit_edge_swap(old, new, w=None, add_first=False):
+    """Remove one hyperedge, add a different one (in that order, or the addition first)."""
+    ops = [["re", old], ["e", new] if w is None else ["e", new, w]]
+    return ops[::-1] if add_first else ops
+
+
+def edit_node_replace(model, v, fresh, w=None):
+    """Remove node v (and with it its hyperedges), add the new node `fresh` carrying the same hyperedges."""
+    inc = [model.raw[i] for i, ms in model.edges.items() if v in ms[0]]
+    return [["rn", v], ["n", fresh]] + [["e", map_edge(model.cls, e, {v: fresh})] + ([] if w is None else [w()])
+                                         for e in inc]
+
+
+def edit_node_swap(model, u, v, w=None):
+    """u and v exchange their hyperedges (None when that changes nothing)."""
+    f = {u: v, v: u}
+    image = {}
+    for i, e in model.raw.items():
+        e2 = map_edge(model.cls, e, f)
+        image[model.ident(e2)[0]] = e2
+    gone = [model.raw[i] for i in model.edges if i not in image]
+    new = [e2 for i, e2 in image.items() if i not in model.edges]
+    if not gone:
+        return None
+    return [["re", e] for e in gone] + [["e", e] + ([] if w is None else [w()]) for e in new]
+
+
+def pool_for(cls, n, labels=None):
+    """Every hyperedge of the exhaustive scopes above on n nodes, in spec format."""
+    lab = labels or list(range(n))
+    if cls == "Hypergraph":
+        return [[lab[i] for i in c] for s in range(1, min(4, n) + 1) for c in itertools.combinations(range(n), s)]
+    if cls == "DirectedHypergraph":
+        pool = []
+        for assign in itertools.product((0, 1, 2), repeat=n):
+            src = [i for i in range(n) if assign[i] == 1]
+            tgt = [i for i in range(n) if assign[i] == 2]
+            if src and tgt:
+                pool.append([src, tgt])
+        return pool
+    sets = [list(c) for s in range(1, min(3, n) + 1) for c in itertools.combinations(range(n), s)]
+    if cls == "TemporalHypergraph":
+        return [[t, e] for t in (0, 1) for e in sets]
+    return [[e, lay] for lay in ("a", "b") for e in sets]
+
+
+def seq_edge_swaps(specs, pool):
+    """For every hypergraph and every (hyperedge in it, hyperedge of the pool not in it): swap forth (removal first) and
+    back (addition first); the sequence that starts from the other hypergraph has the two orders the other way round."""
+    for spec in specs:
+        es = [op[1] for op in spec["ops"] if op[0] == "e"]
+        for old in es:
+            for new in pool:
+                if new not in es:
+                    yield dict(spec, edits=[edit_edge_swap(old, new), edit_edge_swap(new, old, add_first=True)],
+                               kind="edge swap")
+
+
+def seq_node_edits(specs, fresh):
+    """For every hypergraph: every node replaced by the new label `fresh` (and back); every two nodes exchanged."""
+    for spec in specs:
+        m = Model(spec)
+        for v in m.nodes:
+            there = edit_node_replace(m, v, fresh)
+            m2 = Model(dict(spec, ops=spec["ops"] + there))
+            yield dict(spec, edits=[there, edit_node_replace(m2, fresh, v)], kind="node replaced")
+        for u, v in itertools.combinations(m.nodes, 2):
+            there = edit_node_swap(m, u, v)
+            if there:
+                m2 = Model(dict(spec, ops=spec["ops"] + there))
+                yield dict(spec, edits=[there, edit_node_swap(m2, u, v)], kind="two nodes exchanged")
+
+
+FRESH_STR = ["a", "b", "c", "d", "aa", "B", "z1", "10", "2", "node", "x y", "q", "r7", "Zz", "m", "n n", "k", "0"]
+
+
+def random_edge(rng, cls, nodes, size):
+    """A random hyperedge with `size` distinct nodes, in spec format (None when the class has none of that size)."""
+    size = min(size, len(nodes))
+    if size < (2 if cls == "DirectedHypergraph" else 1):
+        return None
+    members = rng.sample(nodes, size)
+    if cls == "Hypergraph":
+        return members
+    if cls == "DirectedHypergraph":
+        k = rng.randint(1, size - 1)
+        return [members[:k], members[k:]]
+    if cls == "TemporalHypergraph":
+        return [rng.randint(0, 3), members]
+    return [members, rng.choice(["a", "b", "layer 3"])]
+
+
+def random_edit(rng, model, labels, weighted):
+    """One random edit of the state `model` (applied to it), two out of three of them count-preserving; None if none
+    was found."""
+    cls = model.cls
+    w = (lambda: rng.choice([1, 2, 3, 0.5, 2.5])) if weighted else None
+
+    def fresh_label():
+        if labels == "str":
+            return next(x for x in FRESH_STR if x not in model.nodeset)
+        return next(x for x in ([len(model.nodes)] if labels == "0..n-1" else []) + list(range(61, 200))
+                    if x not in model.nodeset)
+
+    def new_edges(nodes, k, taken, size=None):
+        out = []
+        for _ in range(40):
+            if len(out) == k:
+                break
+            e = random_edge(rng, cls, nodes, size or rng.choice([1, 2, 2, 2, 3, 3, 4, 4, 5]))
+            if e is not None and model.ident(e)[0] not in taken:
+                taken.add(model.ident(e)[0])
+                out.append(e)
+        return out if len(out) == k else None
+
+    kinds = ["swap same size", "swap", "swap", "move 2", "replace", "replace+rewire", "exchange", "exchange",
+             "add edge", "remove edge", "add node", "remove node"]  # the last four change a count
+    rng.shuffle(kinds)
+    for kind in kinds:
+        ops = None
+        idents = sorted(model.edges, key=repr)
+        if kind in ("swap", "swap same size") and idents:
+            i = rng.choice(idents)
+            new = new_edges(model.nodes, 1, set(model.edges), model.edges[i][1] if kind == "swap same size" else None)
+            if new:
+                ops = edit_edge_swap(model.raw[i], new[0], w() if w else None, add_first=rng.random() < 0.5)
+        elif kind == "move 2" and len(idents) >= 2:
+            gone = rng.sample(idents, 2)
+            new = new_edges(model.nodes, 2, set(model.edges))
+            if new:
+                ops = [["re", model.raw[i]] for i in gone] + [["e", e] + ([w()] if w else []) for e in new]
+        elif kind == "replace" and model.nodes:
+            ops = edit_node_replace(model, rng.choice(model.nodes), fresh_label(), w)
+        elif kind == "replace+rewire" and model.nodes:
+            v, f = rng.choice(model.nodes), fresh_label()
+            k = sum(1 for ms in model.edges.values() if v in ms[0])
+            nodes = [x for x in model.nodes if x != v] + [f]
+            new = new_edges(nodes, k, {i for i, ms in model.edges.items() if v not in ms[0]})
+            if new is not None:
+                ops = [["rn", v], ["n", f]] + [["e", e] + ([w()] if w else []) for e in new]
+        elif kind == "exchange" and len(model.nodes) >= 2:
+            u, v = rng.sample(model.nodes, 2)
+            ops = edit_node_swap(model, u, v, w)
+        elif kind == "add edge":
+            new = new_edges(model.nodes, 1, set(model.edges))
+            if new:
+                ops = [["e", new[0]] + ([w()] if w else [])]
+        elif kind == "remove edge" and idents:
+            ops = [["re", model.raw[rng.choice(idents)]]]
+        elif kind == "add node":
+            ops = [["n", fresh_label()]]
+        elif kind == "remove node" and len(model.nodes) >= 2:
+            ops = [["rn", rng.choice(model.nodes)]]
+        if ops:
+            for op in ops:
+                model.apply(op)
+            return ops
+    return None
+
+
+def random_seq_spec(rng, cls):
+    """A random history followed by 3..6 random edits, one filter per edit (biased to the sizes present)."""
+    while True:
+        spec = random_spec(rng, cls)
+        model = Model(spec)
+        if not model.nodes or model.readded:
+            continue
+        edits, filters = [], []
+        for _ in range(rng.randint(3, 6)):
+            sizes = sorted({ms[1] for ms in model.edges.values()})
+            r = rng.random()
+            if r < 0.3 or not sizes:
+                flt = None if r < 0.3 else rng.choice(filters_for(5))
+            elif r < 0.9:
+                sz = rng.choice(sizes)
+                flt = ["size", sz] if rng.random() < 0.5 else ["order", sz - 1]
+            else:
+                flt = rng.choice(filters_for(5))
+            ops = random_edit(rng, model, spec["labels"], spec["weighted"])
+            if ops is None:
+                break
+            edits.append(ops)
+            filters.append(list(flt) if flt else None)
+        if edits:
+            return dict(spec, edits=edits, filters=filters, kind="random edits")
+
+
 # ----------------------------------------------------------------------------------------------- driver
 def _work(job):
     specs, filters = job
     rec = Rec()
     for spec in specs:
-        check_case(rec, spec, filters)
+        (check_seq if "edits" in spec else check_case)(rec, spec, filters)
     return rec
 
 
 def _run_jobs(ctx, total, specs, filters, chunk=64):
+    """filters=None: every spec is an edit sequence carrying its own list of filters."""
     specs = list(specs)
+    pairs = 0
     for s in specs:
-        ctx.case(dict(s, filters=len(filters)), nontrivial=_has_edge(s))
-    ctx.count("(hypergraph, filter) pairs", len(specs) * len(filters))
+        ctx.case(s if filters is None else dict(s, filters=len(filters)), nontrivial=_has_edge(s))
+        k = len(s["filters"] if filters is None else filters)
+        pairs += 2 * k if "edits" in s else k
+    ctx.count("(hypergraph, filter) pairs", pairs)
     jobs = [(specs[i:i + chunk], filters) for i in range(0, len(specs), chunk)]
     if NPROC > 1 and len(jobs) > 1:
         with multiprocessing.get_context("fork").Pool(NPROC) as pool:
@@ -618,6 +960,55 @@ def run(ctx):
     ctx.exhaustive_parts.append(f"Hypergraph component profiles: every ordered sequence of 2..4 components with sizes 1..4, "
                                 f"each a single hyperedge or a chain of pairs ({len(specs)}) x 3 filters")
 
+    # --- query -> count-preserving edit -> the same query again on the SAME object
+    ctx.rule("edit sequences: one object per case; round k = all queries with filter k, then an edit that keeps the "
+             "number of nodes and the number of hyperedges (one hyperedge removed and a different one added; a node "
+             "removed and a new one added carrying the same hyperedges - or, random part only, as many new ones; two "
+             "nodes exchanged; two hyperedges moved; removal first or addition first), then all queries with the same "
+             "filter; the edits alternate forth and back in the exhaustive part, so every filter meets both directions "
+             "over the enumeration; in the random part one edit in three instead adds / removes one node or hyperedge; "
+             f"clauses evaluated on a state reached by edits are reported under keys ending in '{SEQ}'")
+    FS = [None, ("order", 0), ("size", 2), ("order", 2), ("size", 4)] if q else F5  # quick: every size once
+    n = 0
+    for k, m in ((2, 3), (3, 3), (4, 2 if q else 3)):
+        n += _run_jobs(ctx, total, seq_edge_swaps(enum_hypergraphs(k, m, min_edges=1), pool_for("Hypergraph", k)), FS)
+    if not q:  # n = 5: no filter and every size 1..4, sizes 2 and 3 through both keywords
+        n += _run_jobs(ctx, total, seq_edge_swaps(enum_hypergraphs(5, 2, min_edges=1), pool_for("Hypergraph", 5)),
+                       [None, ("order", 0), ("size", 2), ("order", 2), ("size", 4), ("order", 1), ("size", 3)])
+    n += _run_jobs(ctx, total, seq_edge_swaps(enum_hypergraphs(3, 2, labels=STR, min_edges=1),
+                                              pool_for("Hypergraph", 3, STR)), FS)
+    ctx.exhaustive_parts.append(
+        f"Hypergraph, same object queried around an edit: every hypergraph on n<=3 nodes with 1..3 hyperedges, n=4 with "
+        f"1..{2 if q else 3}{'' if q else ', n=5 with 1..2 (7 filters)'} (and n=3 with 1..2, string labels) x every (hyperedge removed, "
+        f"different hyperedge of size 1..4 added) ({n} sequences) x {len(FS)} filters, all queries before and after")
+    n = 0
+    for k, m in ((1, 1), (2, 3), (3, 3), (4, 2 if q else 3)):
+        n += _run_jobs(ctx, total, seq_node_edits(enum_hypergraphs(k, m), k), FS)
+    n += _run_jobs(ctx, total, seq_node_edits(enum_hypergraphs(3, 2, labels=STR), "d"), FS)
+    ctx.exhaustive_parts.append(
+        f"Hypergraph, same object queried around an edit: every hypergraph on n<=3 nodes with <=3 hyperedges, n=4 with "
+        f"<={2 if q else 3} (and n=3 with <=2, string labels) x (every node replaced by a new node with the same "
+        f"hyperedges; every two nodes exchanged, when that changes a hyperedge) ({n} sequences) x {len(FS)} filters")
+    FD = [None, ("order", 1), ("size", 3), ("size", 1)] if q else F4
+    for cls, scopes in (("DirectedHypergraph", ((2, 2), (3, 2))),
+                        ("TemporalHypergraph", ((2, 2), (3, 1 if q else 2))),
+                        ("MultiplexHypergraph", ((2, 2), (3, 1 if q else 2)))):
+        enum = (lambda k, m, lo: enum_directed(k, m, min_edges=lo)) if cls[0] == "D" else \
+            (lambda k, m, lo, cls=cls: enum_tagged(cls, k, m, min_edges=lo))
+        n = 0
+        for k, m in scopes:
+            n += _run_jobs(ctx, total, seq_edge_swaps(enum(k, m, 1), pool_for(cls, k)), FD)
+            n += _run_jobs(ctx, total, seq_node_edits(enum(k, m, 0), k), FD)
+        ctx.exhaustive_parts.append(
+            f"{cls} degrees, same object queried around an edit: every one on "
+            f"{' and '.join(f'{k} nodes with <={m} hyperedges' for k, m in scopes)} x (every hyperedge swapped for "
+            f"a different one; every node replaced; every two nodes exchanged) ({n} sequences) x {len(FD)} filters")
+    rng = random.Random(ctx.seed * 7919 + 88)
+    for cls, cnt in (("Hypergraph", 250 if q else 5000), ("DirectedHypergraph", 80 if q else 1500),
+                     ("TemporalHypergraph", 80 if q else 1500), ("MultiplexHypergraph", 80 if q else 1500)):
+        _run_jobs(ctx, total, [random_seq_spec(rng, cls) for _ in range(cnt)], None, chunk=16)
+        ctx.count(f"random {cls} edit sequences (3..6 edits each)", cnt)
+
     # --- random histories
     rng = random.Random(ctx.seed * 7919 + 8)
     F6 = filters_for(5)
@@ -633,14 +1024,20 @@ def replay(data):
     common.use_repo()
     spec = data["spec"]
     flt = data.get("filter")
-    if flt == "all" or "filter" not in data:
-        filters = filters_for(5)
-    else:
-        filters = [tuple(flt) if flt else None]
     rec = Rec()
-    check_case(rec, spec, filters)
+    if "edits" in spec:  # the whole sequence is re-executed: the failing query depends on the queries before the edit
+        filters = [tuple(f) if f else None for f in data.get("filters") or spec.get("filters") or []]
+        check_seq(rec, spec, filters)
+        where = (f"{spec['cls']} history {spec['ops']} followed by rounds (all queries with filter k; edit k, cyclically; "
+                 f"same queries) with edits {spec['edits']} and filters {[list(f) if f else None for f in filters]}")
+    else:
+        if flt == "all" or "filter" not in data:
+            filters = filters_for(5)
+        else:
+            filters = [tuple(flt) if flt else None]
+        check_case(rec, spec, filters)
+        where = f"{spec['cls']} history {spec['ops']}, filter {flt}"
     key = data.get("key")
-    where = f"{spec['cls']} history {spec['ops']}, filter {flt}"
     others = sorted(k for k in rec.fails if k != key)
     also = (f" [other clauses failing on this input: {others}]" if others else "")
     if key is None:
@@ -648,5 +1045,7 @@ def replay(data):
     if key not in rec.fails:
         return True, f"clause '{key}' holds on {where} ({sum(rec.evals.values())} clause evaluations){also}"
     f = rec.fails[key]
+    at = (f", {f['input'].get('when')} (state {f['input'].get('state')}), filter {f['input'].get('filter')}"
+          if "edits" in spec else "")
     return False, (f"{key}: expected {f['expected']!r}, observed {f['observed']!r} "
-                   f"({f['input'].get('call', '')}, node {f['input'].get('node')!r}) on {where}{also}")
+                   f"({f['input'].get('call', '')}, node {f['input'].get('node')!r}{at}) on {where}{also}")
